@@ -346,7 +346,21 @@ pub fn execute(stream: &[u8], verify: bool, p: &Perturbation, baseline: Option<&
             d.bytes(corrections);
             d.u64(*compressed_size as u64);
             // 1. reconstruction
-            let rec2 = catch_unwind(AssertUnwindSafe(|| preflate_rs::recompress_deflate_stream(plain, corrections)));
+            // reconstruction happens somewhere else than analysis (stored now, read later): run it on
+            // a fresh thread, whose thread-local state has no history
+            let rec2 = std::thread::scope(|sc| {
+                sc.spawn(|| {
+                    let r = catch_unwind(AssertUnwindSafe(|| preflate_rs::recompress_deflate_stream(plain, corrections)));
+                    if r.is_err() {
+                        // carry the panic text over to the judging thread
+                        let msg = util::take_last_panic();
+                        return Err(msg);
+                    }
+                    Ok(r.unwrap())
+                })
+                .join()
+                .unwrap_or(Err("reconstruction thread died".to_string()))
+            });
             match rec2 {
                 Ok(Ok(b)) => {
                     if *compressed_size > stream.len() || b[..] != stream[..*compressed_size] {
@@ -366,10 +380,10 @@ pub fn execute(stream: &[u8], verify: bool, p: &Perturbation, baseline: Option<&
                         format!("accepted with Ok but recompress_deflate_stream fails with exit code {}", e.exit_code().as_integer_error_code()),
                     ));
                 }
-                Err(_) => {
+                Err(msg) => {
                     verdict = Some((
                         "reconstruction_panicked".to_string(),
-                        format!("accepted with Ok but recompress_deflate_stream panics: {}", util::take_last_panic()),
+                        format!("accepted with Ok but recompress_deflate_stream panics: {}", msg),
                     ));
                 }
             }
@@ -495,6 +509,11 @@ fn gen_streams(master: u64, job: u64, tier: Tier) -> Vec<(Vec<u8>, String)> {
     }
     if tier == Tier::Thorough && job % 400 == 399 {
         let (c, _p, raw) = workload::gen_giant_block_stream(&mut rng);
+        v.push((raw, c.describe()));
+    }
+    if job % 64 == 5 {
+        // a non-final block of 65536 + m tokens (token counts that differ only above bit 16)
+        let (c, _p, raw) = workload::gen_wraparound_block_stream(&mut rng);
         v.push((raw, c.describe()));
     }
     v
